@@ -10,6 +10,7 @@ open YaegiVerif.Piecewise
 structure Good (fx : Facts) : Prop where
   copy : fx.resizeCopiesPrefix = true
   alloc : fx.allocAtEnd = true
+  tokConst : fx.declTokens.contains "const" = true
   tokVar : fx.declTokens.contains "var" = true
   tokFunc : fx.declTokens.contains "func" = true
   tokType : fx.declTokens.contains "type" = true
@@ -142,6 +143,10 @@ theorem progOf_sorted : ∀ (acts : List (Nat × Act)) (lo : Nat), sortedFrom lo
 theorem compileItem_phases (T : Tab) (nf : Nat) (it : Item) (r : List CBody × List (Nat × Act))
     (h : compileItem T nf it = some r) : r.2.map (·.1) = it.phase.toList := by
   cases it with
+  | const x e last =>
+    simp only [compileItem] at h
+    split at h <;> simp at h
+    subst h; rfl
   | var x e =>
     simp only [compileItem] at h
     split at h <;> simp at h
